@@ -17,6 +17,17 @@
 //!   `#p` lines record whether the answers (with file ids renamed to keys) equal those of a fresh
 //!   `Project` loaded (a) in an order that reproduces the same relative id order, (b) in key order.
 //!
+//! The Database/Project cases run in a WORKER process (`supervise`): the worker hands every operation
+//! line to the supervising process before it runs the operation, so an operation that kills the
+//! process (unbounded recursion ends in a stack overflow = abort, which `catch_unwind` cannot see)
+//! or hangs it is recorded as `impl abort` + `#o/#p … panic=1` + `#x panic process died …`, and the
+//! run continues with the next case in a new worker (`--inproc 1`: everything in one process).
+//!
+//! Round-3 generator additions: themes `inherit` (bases / derived / interfaces / users in different
+//! files, variants that differ only in the name after EXTENDS / IMPLEMENTS, same length) and
+//! `rectypes` (types reaching themselves through REF_TO / POINTER TO / ARRAY OF / alias, within one
+//! file and across two), edits that move nothing (`swap_ident`, `same_shape_variants`, `DOp::SetSwap`).
+//!
 //! Protocol (one case):
 //!   case <n> / stream db|proj / text <k> <hex> / set <fid> <k> / rm <fid> / q <kind> <fid> <arg>
 //!   pset <key> <k> / prm <key> / pq <kind> <key> <arg> / impl … / #o … / #p … / tag … / end
@@ -337,6 +348,22 @@ impl Ans {
     }
 }
 
+/// Set in the worker process (see `supervise`): every line is handed to the supervising process
+/// before the operation it announces runs, so that an operation that kills the process (stack
+/// overflow, failed allocation: an abort, not an unwinding panic) is known by name.
+static WORKER: std::sync::atomic::AtomicBool = std::sync::atomic::AtomicBool::new(false);
+
+fn sync(out: &mut Out) {
+    if WORKER.load(std::sync::atomic::Ordering::Relaxed) && !out.buf.is_empty() {
+        use std::io::Write as _;
+        let so = std::io::stdout();
+        let mut l = so.lock();
+        let _ = l.write_all(out.buf.as_bytes());
+        let _ = l.flush();
+        out.buf.clear();
+    }
+}
+
 /// Last panic message seen by the hook installed in `run` (a panic is an observable here).
 static LAST_PANIC: std::sync::Mutex<String> = std::sync::Mutex::new(String::new());
 
@@ -535,6 +562,101 @@ fn theme_dups(_rng: &mut Rng) -> Vec<Slot> {
     ]
 }
 
+/// Inheritance across files: the bases, the derived POU, the interfaces and the users live in
+/// different files, and most variants of the `derived` / `interfaces` files differ ONLY in the name
+/// after EXTENDS / IMPLEMENTS, written with identifiers of the same length — an edit that moves no
+/// source range, no symbol, no scope and no type, only the name-keyed side tables of the symbol
+/// table (which salsa's backdating compares with `Eq`).  The users read members that exist in one
+/// base only, so the answer of the *other* file tells which base the project believes in.
+fn theme_inherit(_rng: &mut Rng) -> Vec<Slot> {
+    let bases = [
+        "FUNCTION_BLOCK BaseA\nVAR_OUTPUT\n    onlyInA : INT;\n    common : INT;\nEND_VAR\nMETHOD PUBLIC Ping : INT\n    Ping := 1;\nEND_METHOD\nEND_FUNCTION_BLOCK\n\nFUNCTION_BLOCK BaseB\nVAR_OUTPUT\n    onlyInB : INT;\n    common : BOOL;\nEND_VAR\nMETHOD PUBLIC Ping : BOOL\n    Ping := TRUE;\nEND_METHOD\nEND_FUNCTION_BLOCK\n",
+        "FUNCTION_BLOCK BaseA\nVAR_OUTPUT\n    onlyInA : BOOL;\n    common : BOOL;\nEND_VAR\nEND_FUNCTION_BLOCK\n\nFUNCTION_BLOCK BaseB\nVAR_OUTPUT\n    onlyInB : DINT;\n    common : DINT;\nEND_VAR\nEND_FUNCTION_BLOCK\n",
+        "FUNCTION_BLOCK BaseA\nVAR_OUTPUT\n    onlyInA : INT;\n    common : INT;\nEND_VAR\nEND_FUNCTION_BLOCK\n",
+        "FUNCTION_BLOCK BaseA\nVAR_OUTPUT\n    onlyInA : INT;\n    common : INT;\nEND_VAR\nEND_FUNCTION_BLOCK\n\nFUNCTION_BLOCK BaseB EXTENDS BaseA\nVAR_OUTPUT\n    onlyInB : INT;\nEND_VAR\nEND_FUNCTION_BLOCK\n",
+        "CLASS BaseA\nVAR PUBLIC\n    onlyInA : INT;\n    common : INT;\nEND_VAR\nMETHOD PUBLIC Ping : INT\n    Ping := 1;\nEND_METHOD\nEND_CLASS\n\nCLASS BaseB\nVAR PUBLIC\n    onlyInB : INT;\n    common : BOOL;\nEND_VAR\nMETHOD PUBLIC Ping : BOOL\n    Ping := TRUE;\nEND_METHOD\nEND_CLASS\n",
+        "FUNCTION_BLOCK FINAL BaseA\nVAR_OUTPUT\n    onlyInA : INT;\nEND_VAR\nEND_FUNCTION_BLOCK\n\nFUNCTION_BLOCK ABSTRACT BaseB\nVAR_OUTPUT\n    onlyInB : INT;\nEND_VAR\nMETHOD PUBLIC ABSTRACT Ping : BOOL\nEND_METHOD\nEND_FUNCTION_BLOCK\n",
+    ];
+    let mut derived: Vec<String> = Vec::new();
+    for base in ["BaseA", "BaseB", "BaseC"] {
+        for itf in ["IBasA", "IBasB"] {
+            derived.push(format!("FUNCTION_BLOCK Derived EXTENDS {base}\nEND_FUNCTION_BLOCK\n"));
+            derived.push(format!(
+                "FUNCTION_BLOCK Derived EXTENDS {base} IMPLEMENTS {itf}\nMETHOD PUBLIC Start : BOOL\n    Start := TRUE;\nEND_METHOD\nEND_FUNCTION_BLOCK\n"
+            ));
+            derived.push(format!(
+                "FUNCTION_BLOCK Derived EXTENDS {base}\nMETHOD PUBLIC Own : INT\n    Own := common;\nEND_METHOD\nEND_FUNCTION_BLOCK\n\nFUNCTION_BLOCK Leaf EXTENDS Derived\nEND_FUNCTION_BLOCK\n"
+            ));
+        }
+        derived.push(format!("CLASS Derived EXTENDS {base}\nEND_CLASS\n"));
+    }
+    let mut itfs: Vec<String> = Vec::new();
+    for base in ["IBasA", "IBasB", "IBasC"] {
+        itfs.push(format!(
+            "INTERFACE IBasA\n    METHOD Start : BOOL\n    END_METHOD\nEND_INTERFACE\n\nINTERFACE IBasB\n    METHOD Stopp : BOOL\n    END_METHOD\nEND_INTERFACE\n\nINTERFACE IDev EXTENDS {base}\n    METHOD Reset : BOOL\n    END_METHOD\nEND_INTERFACE\n"
+        ));
+    }
+    itfs.push("INTERFACE IBasA\n    METHOD Start : INT\n    END_METHOD\nEND_INTERFACE\n".into());
+    let users = [
+        "PROGRAM Main\nVAR\n    d : Derived;\n    x : INT;\nEND_VAR\nx := d.onlyInA;\nEND_PROGRAM\n",
+        "PROGRAM Main\nVAR\n    d : Derived;\n    x : INT;\nEND_VAR\nx := d.onlyInB;\nx := d.common;\nEND_PROGRAM\n",
+        "PROGRAM Main\nVAR\n    d : Derived;\n    x : INT;\nEND_VAR\nx := d.Ping();\nx := d.Own();\nEND_PROGRAM\n",
+        "PROGRAM Main\nVAR\n    d : Derived;\n    i : IDev;\n    j : IBasA;\n    ok : BOOL;\nEND_VAR\ni := d;\nj := d;\nok := i.Start();\nok := i.Stopp();\nok := i.Reset();\nEND_PROGRAM\n",
+        "PROGRAM Main\nVAR\n    l : Leaf;\n    x : INT;\nEND_VAR\nx := l.onlyInA + l.onlyInB;\nEND_PROGRAM\n",
+    ];
+    let second = [
+        "FUNCTION_BLOCK Other EXTENDS Derived\nVAR\n    y : INT;\nEND_VAR\ny := onlyInA;\nEND_FUNCTION_BLOCK\n",
+        "FUNCTION_BLOCK Other EXTENDS Derived\nVAR\n    y : INT;\nEND_VAR\ny := onlyInB;\ny := common;\nEND_FUNCTION_BLOCK\n",
+        "FUNCTION_BLOCK Other IMPLEMENTS IDev\nMETHOD PUBLIC Start : BOOL\n    Start := TRUE;\nEND_METHOD\nMETHOD PUBLIC Reset : BOOL\n    Reset := TRUE;\nEND_METHOD\nEND_FUNCTION_BLOCK\n",
+        "PROGRAM Second\nVAR\n    o : Other;\n    d : Derived;\n    z : INT;\nEND_VAR\nz := d.onlyInB;\nEND_PROGRAM\n",
+    ];
+    vec![
+        slot(&bases),
+        Slot { variants: derived },
+        slot(&users),
+        Slot { variants: itfs },
+        slot(&second),
+    ]
+}
+
+/// Data types that reach themselves through their components (linked-list node, two structures
+/// pointing at each other, also from two different files; through REF_TO / POINTER TO / ARRAY OF /
+/// alias / a function block's own reference) declared in another file than their users.  The
+/// cross-file import has to terminate on them ("no query panics for any file contents"; unbounded
+/// recursion ends in a stack overflow, i.e. an abort of the process, which only the supervising
+/// process can observe).
+fn theme_rectypes(_rng: &mut Rng) -> Vec<Slot> {
+    vec![
+        slot(&[
+            "TYPE Node :\nSTRUCT\n    value : INT;\nEND_STRUCT\nEND_TYPE\n",
+            "TYPE Node :\nSTRUCT\n    value : INT;\n    next : REF_TO Node;\nEND_STRUCT\nEND_TYPE\n",
+            "TYPE Node :\nSTRUCT\n    value : INT;\n    next : POINTER TO Node;\nEND_STRUCT\nEND_TYPE\n",
+            "TYPE Node :\nSTRUCT\n    value : INT;\n    kids : ARRAY[0..1] OF REF_TO Node;\nEND_STRUCT\nEND_TYPE\n",
+            "TYPE\n    Node :\n    STRUCT\n        value : INT;\n        next : NodeRef;\n    END_STRUCT;\n    NodeRef : REF_TO Node;\nEND_TYPE\n",
+            "TYPE Node :\nUNION\n    value : INT;\n    next : REF_TO Node;\nEND_UNION\nEND_TYPE\n",
+            "TYPE Node :\nSTRUCT\n    value : INT;\n    next : REF_TO REF_TO Node;\n    grid : ARRAY[0..1, 0..1] OF POINTER TO Node;\nEND_STRUCT\nEND_TYPE\n",
+        ]),
+        slot(&[
+            "TYPE Left :\nSTRUCT\n    peer : REF_TO Right;\n    value : INT;\nEND_STRUCT\nEND_TYPE\n\nTYPE Right :\nSTRUCT\n    peer : POINTER TO Left;\nEND_STRUCT\nEND_TYPE\n",
+            "TYPE Left :\nSTRUCT\n    peer : REF_TO Right;\n    value : INT;\nEND_STRUCT\nEND_TYPE\n",
+            "TYPE Left :\nSTRUCT\n    value : INT;\nEND_STRUCT\nEND_TYPE\n\nTYPE Right :\nSTRUCT\n    peer : REF_TO Left;\nEND_STRUCT\nEND_TYPE\n",
+            "TYPE Left :\nSTRUCT\n    peer : REF_TO Right;\n    head : REF_TO Node;\n    value : INT;\nEND_STRUCT\nEND_TYPE\n\nTYPE Right :\nSTRUCT\n    peer : ARRAY[0..2] OF REF_TO Left;\nEND_STRUCT\nEND_TYPE\n",
+        ]),
+        slot(&[
+            "PROGRAM Main\nVAR\n    n : Node;\n    x : INT;\nEND_VAR\nx := n.value;\nEND_PROGRAM\n",
+            "PROGRAM Main\nVAR\n    n : Node;\n    m : Node;\n    x : INT;\nEND_VAR\nn.next := REF(m);\nx := n.next^.value;\nEND_PROGRAM\n",
+            "PROGRAM Main\nVAR\n    l : Left;\n    r : Right;\n    x : INT;\nEND_VAR\nl.peer := REF(r);\nx := l.value;\nEND_PROGRAM\n",
+            "PROGRAM Main\nVAR\n    x : INT;\nEND_VAR\nx := 1;\nEND_PROGRAM\n",
+        ]),
+        slot(&[
+            // the other half of a cycle that spans two files
+            "TYPE Right :\nSTRUCT\n    peer : REF_TO Left;\n    value : INT;\nEND_STRUCT\nEND_TYPE\n",
+            "FUNCTION_BLOCK FB_Node\nVAR\n    next : REF_TO FB_Node;\n    data : Node;\nEND_VAR\nVAR_OUTPUT\n    depth : INT;\nEND_VAR\ndepth := data.value;\nEND_FUNCTION_BLOCK\n",
+            "FUNCTION_BLOCK FB_Node\nVAR\n    next : REF_TO FB_Node;\n    owner : REF_TO FB_List;\nEND_VAR\nEND_FUNCTION_BLOCK\n\nFUNCTION_BLOCK FB_List\nVAR\n    head : REF_TO FB_Node;\n    items : ARRAY[0..3] OF FB_Node;\nEND_VAR\nEND_FUNCTION_BLOCK\n",
+            "FUNCTION Walk : INT\nVAR_INPUT\n    start : REF_TO Node;\nEND_VAR\nWalk := start^.value;\nEND_FUNCTION\n",
+        ]),
+    ]
+}
 
 // ------------------------------------------------------------------------------------------------
 // Content stream: constant expressions with boundary arithmetic in every place where the symbol
@@ -825,6 +947,103 @@ fn mutate(rng: &mut Rng, text: &str) -> String {
     }
 }
 
+const TYPE_WORDS: [&str; 12] = [
+    "BOOL", "SINT", "DINT", "LINT", "UINT", "REAL", "WORD", "BYTE", "TIME", "INT", "USINT", "UDINT",
+];
+
+/// Byte ranges of the identifier-like words of `text`.
+fn words_of(text: &str) -> Vec<(usize, usize)> {
+    let b = text.as_bytes();
+    let mut out = Vec::new();
+    let mut i = 0;
+    while i < b.len() {
+        if b[i].is_ascii_alphabetic() || b[i] == b'_' {
+            let start = i;
+            while i < b.len() && (b[i].is_ascii_alphanumeric() || b[i] == b'_') {
+                i += 1;
+            }
+            out.push((start, i));
+        } else {
+            i += 1;
+        }
+    }
+    out
+}
+
+/// A user-level name (not a keyword): it has a lower-case letter, or it is an elementary type.
+fn is_name(w: &str) -> bool {
+    w.bytes().any(|c| c.is_ascii_lowercase()) || TYPE_WORDS.contains(&w)
+}
+
+/// An edit that moves NOTHING: one name of the text (one occurrence, or all of them) is replaced by
+/// another name of the same length taken from the texts of the case (or an elementary type of that
+/// length).  No source range, symbol id, scope or type id changes; only what is keyed or stored by
+/// name does (EXTENDS / IMPLEMENTS targets, type references, USING directives, callees, …) — the
+/// kind of edit after which "the re-computed value equals the old one" is most easily believed.
+fn swap_ident(rng: &mut Rng, text: &str, pool: &Pool) -> Option<String> {
+    let mut vocab: Vec<String> = TYPE_WORDS.iter().map(|s| s.to_string()).collect();
+    for s in &pool.slots {
+        for v in &s.variants {
+            for (a, b) in words_of(v) {
+                let w = &v[a..b];
+                if is_name(w) && !vocab.iter().any(|x| x == w) {
+                    vocab.push(w.to_string());
+                }
+            }
+        }
+    }
+    let spots: Vec<(usize, usize)> = words_of(text)
+        .into_iter()
+        .filter(|(a, b)| {
+            let w = &text[*a..*b];
+            is_name(w) && vocab.iter().any(|x| x.len() == w.len() && !x.eq_ignore_ascii_case(w))
+        })
+        .collect();
+    if spots.is_empty() {
+        return None;
+    }
+    let (a, b) = *rng.pick(&spots);
+    let old = text[a..b].to_string();
+    let cands: Vec<&String> =
+        vocab.iter().filter(|x| x.len() == old.len() && !x.eq_ignore_ascii_case(&old)).collect();
+    // a candidate that differs in few characters (BaseA / BaseB) is the more plausible typo
+    let near: Vec<&String> = cands
+        .iter()
+        .copied()
+        .filter(|x| x.bytes().zip(old.bytes()).filter(|(p, q)| p != q).count() <= 1)
+        .collect();
+    let new = if !near.is_empty() && rng.chance(2, 3) { (*rng.pick(&near)).clone() } else { (*rng.pick(&cands)).clone() };
+    if rng.chance(1, 4) {
+        // every occurrence (whole words only)
+        let mut out = String::with_capacity(text.len());
+        let mut last = 0;
+        for (x, y) in words_of(text) {
+            if text[x..y] == old {
+                out.push_str(&text[last..x]);
+                out.push_str(&new);
+                last = y;
+            }
+        }
+        out.push_str(&text[last..]);
+        Some(out)
+    } else {
+        Some(format!("{}{}{}", &text[..a], new, &text[b..]))
+    }
+}
+
+/// The variants of the case that have the SHAPE of `cur` (same length, same line lengths) but another
+/// text: going from `cur` to one of them is an edit that moves nothing (e.g. only the name after
+/// EXTENDS differs, or only a literal).
+fn same_shape_variants<'a>(pool: &'a Pool, cur: &str) -> Vec<&'a String> {
+    let shape = |t: &str| t.split('\n').map(|l| l.len()).collect::<Vec<_>>();
+    let want = shape(cur);
+    pool.slots
+        .iter()
+        .flat_map(|s| s.variants.iter())
+        .filter(|v| v.len() == cur.len() && v.as_str() != cur && shape(v) == want)
+        .collect()
+}
+
 /// The texts available to one case: per file a slot, plus foreign slots for cross-pollination.
 pub struct Pool {
     pub slots: Vec<Slot>,
@@ -833,7 +1052,7 @@ pub struct Pool {
 
 type Theme = (&'static str, fn(&mut Rng) -> Vec<Slot>);
 
-const THEMES: [Theme; 7] = [
+const THEMES: [Theme; 9] = [
     ("func", theme_func),
     ("types", theme_types),
     ("globals", theme_globals),
@@ -841,18 +1060,21 @@ const THEMES: [Theme; 7] = [
     ("oop", theme_oop),
     ("dups", theme_dups),
     ("consts", theme_consts),
+    ("inherit", theme_inherit),
+    ("rectypes", theme_rectypes),
 ];
 
 pub fn pick_pool(rng: &mut Rng, corpus: &[Slot]) -> Pool {
-    let r = rng.below(20);
-    if r < 16 {
-        // duplicate names and constant folding are drawn more often than the other themes
-        let idx = [0usize, 1, 2, 3, 4, 5, 6, 0, 1, 2, 3, 4, 5, 6, 5, 6][r as usize];
+    let r = rng.below(26);
+    if r < 22 {
+        // duplicate names, constant folding, inheritance and recursive types are drawn more often
+        // than the other themes
+        let idx = [0usize, 1, 2, 3, 4, 5, 6, 7, 8, 0, 1, 2, 3, 4, 5, 6, 7, 8, 5, 6, 7, 8][r as usize];
         let (name, f) = THEMES[idx];
         let mut slots = f(rng);
         if rng.chance(1, 3) {
             // widen with a second theme (up to five files in total)
-            let (_, g) = THEMES[rng.below(7) as usize];
+            let (_, g) = THEMES[rng.below(THEMES.len() as u64) as usize];
             for s in g(rng) {
                 if slots.len() < 5 {
                     slots.push(s);
@@ -860,7 +1082,7 @@ pub fn pick_pool(rng: &mut Rng, corpus: &[Slot]) -> Pool {
             }
         }
         Pool { slots, theme: name }
-    } else if r < 18 && corpus.len() >= 2 {
+    } else if r < 24 && corpus.len() >= 2 {
         // a real example project (or a part of it)
         let start = rng.below(corpus.len() as u64) as usize;
         let n = 2 + rng.below(4) as usize;
@@ -877,7 +1099,7 @@ pub fn pick_pool(rng: &mut Rng, corpus: &[Slot]) -> Pool {
         // mixed bag incl. garbage
         let mut slots = Vec::new();
         for _ in 0..(1 + rng.below(5)) {
-            let (_, f) = THEMES[rng.below(7) as usize];
+            let (_, f) = THEMES[rng.below(THEMES.len() as u64) as usize];
             let mut ss = f(rng);
             let k = rng.below(ss.len() as u64) as usize;
             slots.push(ss.swap_remove(k));
@@ -894,14 +1116,35 @@ fn next_text(rng: &mut Rng, pool: &Pool, slot: usize, cur: Option<&str>, out: &m
     let s = &pool.slots[slot % pool.slots.len()];
     let r = rng.below(100);
     if r < 50 {
+        if let Some(c) = cur {
+            let same = same_shape_variants(pool, c);
+            if !same.is_empty() && rng.chance(1, 3) {
+                out.count("text_same_shape_variant");
+                return (*rng.pick(&same)).clone();
+            }
+        }
         out.count("text_variant");
         rng.pick(&s.variants).clone()
-    } else if r < 68 {
+    } else if r < 61 {
         out.count("text_mutated");
         let base = cur
             .map(|c| c.to_string())
             .unwrap_or_else(|| rng.pick(&s.variants).clone());
         mutate(rng, &base)
+    } else if r < 68 {
+        let base = cur
+            .map(|c| c.to_string())
+            .unwrap_or_else(|| rng.pick(&s.variants).clone());
+        match swap_ident(rng, &base, pool) {
+            Some(t) => {
+                out.count("text_same_length_name_swap");
+                t
+            }
+            None => {
+                out.count("text_mutated");
+                mutate(rng, &base)
+            }
+        }
     } else if r < 78 {
         out.count("text_foreign_slot");
         let other = &pool.slots[rng.below(pool.slots.len() as u64) as usize];
@@ -1119,6 +1362,8 @@ enum DOp {
     SetAbsent,
     /// edit a file that is currently present
     SetPresent,
+    /// edit a present file by a same-length name swap (`swap_ident`): nothing moves
+    SetSwap,
     /// remove a random file (mostly a present one)
     Rm,
     /// remove a present file other than the one touched by the previous op
@@ -1161,7 +1406,10 @@ fn motif_script(rng: &mut Rng, nfiles: usize, steps: usize) -> Vec<DOp> {
     }
     script.push(DOp::ProjSweep);
     while script.len() + 1 < steps {
-        match rng.below(8) {
+        match rng.below(12) {
+            8 | 10 => script.extend([DOp::SetSwap, DOp::ProjSweep]),
+            9 => script.extend([DOp::ProjSweep, DOp::SetSwap, DOp::SetSwap, DOp::ProjSweep]),
+            11 => script.extend([DOp::SetSwap, DOp::Burst]),
             0 => script.extend([DOp::SetAbsent, DOp::SetPresent, DOp::ProjSweep]),
             1 => script.extend([DOp::SetAbsent, DOp::RmOther, DOp::ProjSweep]),
             2 => script.extend([DOp::RmLowest, DOp::SetBack, DOp::ProjSweep]),
@@ -1182,7 +1430,15 @@ fn random_script(rng: &mut Rng, nfiles: usize, steps: usize) -> Vec<DOp> {
     let mut script: Vec<DOp> = (0..preload).map(DOp::SetSlot).collect();
     while script.len() + 1 < steps.max(1) {
         let r = rng.below(100);
-        script.push(if r < 42 { DOp::Set } else if r < 53 { DOp::Rm } else { DOp::Burst });
+        script.push(if r < 36 {
+            DOp::Set
+        } else if r < 42 {
+            DOp::SetSwap
+        } else if r < 53 {
+            DOp::Rm
+        } else {
+            DOp::Burst
+        });
     }
     script.push(DOp::FullSweep); // every history ends with a sweep over all files and kinds
     script
@@ -1224,6 +1480,7 @@ impl DbCase<'_> {
     fn set(&mut self, id: u32, text: String) {
         let ti = self.texts.intern(&text, self.out);
         self.out.line(format!("set {id} {ti}"));
+        sync(self.out);
         if self.finals.get(&id) == Some(&text) {
             self.out.count("op_set_identical");
         } else if self.finals.contains_key(&id) {
@@ -1254,6 +1511,7 @@ impl DbCase<'_> {
 
     fn rm(&mut self, id: u32) {
         self.out.line(format!("rm {id}"));
+        sync(self.out);
         if self.finals.remove(&id).is_some() {
             self.out.count("op_rm_present");
             self.ever_removed = true;
@@ -1284,6 +1542,7 @@ impl DbCase<'_> {
     /// panics: queries run outside the state lock), the oracle verdict as `#o` line.
     fn query(&mut self, rng: &mut Rng, kind: Kind, f: u32, arg: u32) {
         self.out.line(format!("q {} {f} {arg}", kind.name()));
+        sync(self.out);
         self.out.count(&format!("q_{}", kind.name()));
         if self.finals.contains_key(&f) {
             self.out.count("q_on_present_file");
@@ -1386,6 +1645,7 @@ fn run_db_case(
     };
     out.line(format!("case {n}"));
     out.line("stream db");
+    sync(out);
     let script = match forced {
         Some(f) => {
             out.line("tag witness");
@@ -1445,6 +1705,35 @@ fn run_db_case(
                 c.set(id, text);
             }
             DOp::FixedSet(id, text) => c.set(id, text),
+            DOp::SetSwap => {
+                // the files whose text has a name that can be swapped, in random order
+                let mut cands = present.clone();
+                for i in (1..cands.len()).rev() {
+                    let j = rng.below(i as u64 + 1) as usize;
+                    cands.swap(i, j);
+                }
+                let mut done = false;
+                for id in cands {
+                    let cur = c.finals.get(&id).cloned().unwrap_or_default();
+                    let same = same_shape_variants(&pool, &cur);
+                    if !same.is_empty() && rng.chance(2, 3) {
+                        let t = (*rng.pick(&same)).clone();
+                        c.out.count("text_same_shape_variant");
+                        c.set(id, t);
+                        done = true;
+                        break;
+                    }
+                    if let Some(t) = swap_ident(rng, &cur, &pool) {
+                        c.out.count("text_same_length_name_swap");
+                        c.set(id, t);
+                        done = true;
+                        break;
+                    }
+                }
+                if !done {
+                    c.out.count("swap_not_possible");
+                }
+            }
             DOp::SetBack => {
                 if let Some((id, text)) = c.remembered.take() {
                     c.set(id, text);
@@ -1648,6 +1937,7 @@ fn run_proj_case(
     if forced.is_some() {
         out.line("tag witness");
     }
+    sync(out);
     let mut texts = Texts::default();
     let mut proj = Project::new();
     let mut finals: BTreeMap<usize, String> = BTreeMap::new();
@@ -1678,6 +1968,7 @@ fn run_proj_case(
             POp::Set(k, text) => {
                 let ti = texts.intern(&text, out);
                 out.line(format!("pset {k} {ti}"));
+                sync(out);
                 if !finals.contains_key(&k) && removed.contains(&k) {
                     readded = true;
                     out.count("proj_readd");
@@ -1696,6 +1987,7 @@ fn run_proj_case(
             }
             POp::Rm(k) => {
                 out.line(format!("prm {k}"));
+                sync(out);
                 if finals.remove(&k).is_some() && !removed.contains(&k) {
                     removed.push(k);
                 }
@@ -1712,6 +2004,7 @@ fn run_proj_case(
             }
             POp::Ren(old, new) => {
                 out.line(format!("pren {old} {new}"));
+                sync(out);
                 out.count(if old == new { "proj_rename_alias" } else { "proj_rename" });
                 let r = catch_unwind(AssertUnwindSafe(|| {
                     let Some(id) = proj.file_id_for_key(&key_of(old)) else { return };
@@ -1749,6 +2042,7 @@ fn run_proj_case(
                     pick_arg(rng, kind, finals.get(&k).map(|s| s.as_str()), proj.database(), fid.0)
                 });
                 out.line(format!("pq {} {k} {arg}", kind.name()));
+                sync(out);
                 // (a) fresh project loaded in the order that reproduces the relative id order,
                 // (b) fresh project loaded in key order
                 let ids = project_ids(&proj);
@@ -1962,17 +2256,25 @@ fn run_lsp_cases(args: &Args, nlsp: u64, steps: usize, out: &mut Out) -> i32 {
                         let mut rng = Rng::for_case(seed, n);
                         let variants = |slots: Vec<Slot>| slots.into_iter().map(|s| s.variants).collect::<Vec<_>>();
                         let roles = lsp_layer::roles(variants(theme_func(&mut rng)), variants(theme_types(&mut rng)));
-                        let (initial, script, witness) = if n == base {
+                        let (initial, script, witness, config) = if n == base {
                             let (i, s) = lsp_layer::alias_witness();
-                            (i, s, 1)
+                            (i, s, 1, None)
                         } else if n == base + 1 {
                             let (i, s) = lsp_layer::symlink_delete_witness();
-                            (i, s, 2)
+                            (i, s, 2, None)
+                        } else if n == base + 2 {
+                            let (i, s, c) = lsp_layer::budget_witness();
+                            (i, s, 1, Some(c))
+                        } else if rng.chance(1, 4) {
+                            // a session under a memory budget: big files, evictions
+                            let (c, pads) = lsp_layer::budget_plan(&mut rng, roles.len());
+                            let (i, s) = lsp_layer::gen_script(&mut rng, &roles, lsteps, &|r, t| mutate(r, t), &pads);
+                            (i, s, 0, Some(c))
                         } else {
-                            let (i, s) = lsp_layer::gen_script(&mut rng, &roles, lsteps, &|r, t| mutate(r, t));
-                            (i, s, 0)
+                            let (i, s) = lsp_layer::gen_script(&mut rng, &roles, lsteps, &|r, t| mutate(r, t), &[]);
+                            (i, s, 0, None)
                         };
-                        (n, lsp_layer::run_case(&bin, n, &wsbase, &initial, &script, witness))
+                        (n, lsp_layer::run_case(&bin, n, &wsbase, &initial, &script, witness, config.as_deref()))
                     })
                     .collect::<Vec<_>>()
             }));
@@ -1997,11 +2299,8 @@ fn run_lsp_cases(args: &Args, nlsp: u64, steps: usize, out: &mut Out) -> i32 {
     0
 }
 
-pub fn run(args: &Args) -> i32 {
-    if let Some(path) = args.extra.get("freshq") {
-        return run_freshq(path);
-    }
-    let mut out = Out::new();
+/// The Database- and Project-layer cases with number >= `from` (and the two recorded witnesses).
+fn run_hir_cases(args: &Args, out: &mut Out, from: u64) {
     let steps = args.extra_usize("steps", 25);
     let proj_every = args.extra_usize("projevery", 5).max(2) as u64;
     // `--focus 1`: follow-up search after a broken tie (duplicate global names, out-of-order ids,
@@ -2013,36 +2312,261 @@ pub fn run(args: &Args) -> i32 {
         .cloned()
         .unwrap_or_else(|| "/repo/examples".to_string());
     let corpus = corpus_slots(&corpus_dir);
-    out.add("corpus_files", corpus.len() as u64);
+    if from == 0 {
+        out.add("corpus_files", corpus.len() as u64);
+    }
     // panics are observables here; keep stderr quiet but remember the last message
     std::panic::set_hook(Box::new(|info| {
         let mut g = LAST_PANIC.lock().unwrap_or_else(|e| e.into_inner());
         *g = info.to_string();
     }));
     for n in args.case_numbers() {
+        if n < from || n >= args.cases {
+            continue; // (`--only` may name a witness or an LSP session)
+        }
         let mut rng = Rng::for_case(args.seed, n);
         if !focus && n % proj_every == proj_every - 1 {
-            run_proj_case(n, &mut rng, steps, &corpus, &mut out, None);
+            run_proj_case(n, &mut rng, steps, &corpus, out, None);
             out.count("cases_proj");
         } else {
-            run_db_case(n, &mut rng, steps, &corpus, &mut out, focus, None);
+            run_db_case(n, &mut rng, steps, &corpus, out, focus, None);
             out.count("cases_db");
         }
         out.count("cases");
+        sync(out);
     }
     // the recorded witness of the Project-layer finding runs last (case number = `--cases`)
-    if args.only.is_none() || args.only == Some(args.cases) {
+    if (args.only.is_none() || args.only == Some(args.cases)) && from <= args.cases {
         let mut rng = Rng::for_case(args.seed, args.cases);
-        run_proj_case(args.cases, &mut rng, 0, &corpus, &mut out, Some(witness_script()));
+        run_proj_case(args.cases, &mut rng, 0, &corpus, out, Some(witness_script()));
         out.count("cases_witness");
     }
     // … and the regression case of the (fixed) enum-value overflow (case number = `--cases` + 1)
-    if args.only.is_none() || args.only == Some(args.cases + 1) {
+    if (args.only.is_none() || args.only == Some(args.cases + 1)) && from <= args.cases + 1 {
         let mut rng = Rng::for_case(args.seed, args.cases + 1);
-        run_db_case(args.cases + 1, &mut rng, 0, &corpus, &mut out, false, Some(enum_overflow_witness()));
+        run_db_case(args.cases + 1, &mut rng, 0, &corpus, out, false, Some(enum_overflow_witness()));
         out.count("cases_witness");
     }
+    sync(out);
     let _ = std::panic::take_hook();
+}
+
+/// Seconds without a line from the worker after which it is taken to hang.
+const WATCHDOG_S: u64 = 180;
+
+/// What the supervising process writes for an operation that killed the worker: an `impl abort`
+/// line if the operation was announced but not answered, and the oracle line (`panic=1`).
+fn abort_record(case_lines: &[String], cause: &str) -> Vec<String> {
+    let mut last_op: Option<(usize, &String)> = None;
+    let mut answered = false;
+    let mut proj = false;
+    for (i, l) in case_lines.iter().enumerate() {
+        if l == "stream proj" {
+            proj = true;
+        }
+        let head = l.split(' ').next().unwrap_or("");
+        if matches!(head, "set" | "rm" | "q" | "pset" | "prm" | "pren" | "pq") {
+            last_op = Some((i, l));
+            answered = false;
+        } else if head == "impl" {
+            answered = true;
+        }
+    }
+    let mut v = Vec::new();
+    let w: Vec<&str> = match last_op {
+        Some((_, l)) if !answered => l.split(' ').collect(),
+        _ => Vec::new(),
+    };
+    if !w.is_empty() {
+        v.push("impl abort".to_string());
+    }
+    let g = |i: usize| w.get(i).copied().unwrap_or("0");
+    let (kind, f, arg) = match w.first().copied() {
+        Some("q") | Some("pq") => (g(1), g(2), g(3)),
+        Some("set") | Some("pset") => ("set", g(1), "0"),
+        Some("rm") | Some("prm") => ("rm", g(1), "0"),
+        Some("pren") => ("ren", g(1), "0"),
+        _ => ("between-operations", "0", "0"),
+    };
+    if proj {
+        v.push(format!("#p {kind} {f} {arg} same_order=1 key_order=1 repeat=1 panic=1 order_differs=0"));
+    } else {
+        v.push(format!("#o {kind} {f} {arg} fresh=1 repeat=1 panic=1 h=0"));
+    }
+    v.push(format!("#x panic {}", hex(cause.as_bytes())));
+    v.push("tag aborted".to_string());
+    v.push("end".to_string());
+    v
+}
+
+/// Runs the Database/Project cases in a WORKER process (`vharness c13 --worker 1 --from n …`, same
+/// seed, same cases) and copies its lines.  A query that recurses without bound, or allocates
+/// without bound, does not unwind: the process dies (SIGABRT / SIGSEGV / SIGKILL), which
+/// `catch_unwind` cannot see.  The worker hands every operation line over before it runs the
+/// operation, so when it dies (or stays silent for `WATCHDOG_S`) the supervisor knows the case and
+/// the operation, records it as a failed judgement (`impl abort`, `#o … panic=1`, `#x panic process
+/// died …`) and starts a new worker at the next case.
+fn supervise(args: &Args, out: &mut Out) -> Result<(), String> {
+    use std::io::{BufRead, BufReader, Read};
+    use std::process::{Command, Stdio};
+    let exe = std::env::current_exe().map_err(|e| format!("current_exe: {e}"))?;
+    let last_case = args.cases + 1;
+    let mut from = 0u64;
+    let mut aborts = 0u64;
+    loop {
+        let mut cmd = Command::new(&exe);
+        cmd.arg("c13")
+            .args(["--seed", &args.seed.to_string(), "--cases", &args.cases.to_string()])
+            .args(["--worker", "1", "--from", &from.to_string()]);
+        if let Some(o) = args.only {
+            cmd.args(["--only", &o.to_string()]);
+        }
+        for (k, v) in &args.extra {
+            if !matches!(k.as_str(), "worker" | "from" | "lsp" | "jobs" | "inproc") {
+                cmd.arg(format!("--{k}")).arg(v);
+            }
+        }
+        let mut child = cmd
+            .stdin(Stdio::null())
+            .stdout(Stdio::piped())
+            .stderr(Stdio::piped())
+            .spawn()
+            .map_err(|e| format!("spawn worker: {e}"))?;
+        let stdout = child.stdout.take().expect("stdout");
+        let mut stderr = child.stderr.take().expect("stderr");
+        let (tx, rx) = std::sync::mpsc::channel::<String>();
+        let reader = std::thread::spawn(move || {
+            for l in BufReader::new(stdout).lines() {
+                match l {
+                    Ok(l) => {
+                        if tx.send(l).is_err() {
+                            break;
+                        }
+                    }
+                    Err(_) => break,
+                }
+            }
+        });
+        let errs = std::thread::spawn(move || {
+            let mut s = String::new();
+            let _ = stderr.read_to_string(&mut s);
+            s
+        });
+        let mut lines: Vec<String> = Vec::new();
+        let mut stats: Option<BTreeMap<String, u64>> = None;
+        let mut hung = false;
+        loop {
+            match rx.recv_timeout(std::time::Duration::from_secs(WATCHDOG_S)) {
+                Ok(l) => {
+                    if let Some(j) = l.strip_prefix("#stats ") {
+                        stats = serde_json::from_str(j).ok();
+                    } else {
+                        lines.push(l);
+                    }
+                }
+                Err(std::sync::mpsc::RecvTimeoutError::Timeout) => {
+                    hung = true;
+                    let _ = child.kill();
+                    break;
+                }
+                Err(std::sync::mpsc::RecvTimeoutError::Disconnected) => break,
+            }
+        }
+        let status = child.wait().map_err(|e| format!("wait: {e}"))?;
+        let _ = reader.join();
+        let err_text = errs.join().unwrap_or_default();
+        if status.success() && !hung {
+            if let Some(st) = stats {
+                for l in &lines {
+                    out.line(l);
+                }
+                for (k, v) in st {
+                    out.add(&k, v);
+                }
+                return Ok(());
+            }
+        }
+        // the worker died: which case, which operation
+        aborts += 1;
+        out.count("worker_processes_died");
+        let Some(start) = lines.iter().rposition(|l| l.starts_with("case ")) else {
+            return Err(format!("worker died before its first case ({status}): {}", tail(&err_text, 400)));
+        };
+        let n: u64 = lines[start]
+            .split(' ')
+            .nth(1)
+            .and_then(|x| x.parse().ok())
+            .ok_or("worker wrote a malformed case line")?;
+        let complete = lines[start..].iter().any(|l| l == "end");
+        let cause = format!(
+            "process died ({}): {}",
+            if hung { format!("no output for {WATCHDOG_S} s, killed") } else { describe_status(&status) },
+            tail(err_text.trim(), 300)
+        );
+        if complete {
+            // died between two cases: nothing to attribute, but never silently
+            for l in &lines {
+                out.line(l);
+            }
+            return Err(format!("worker died after case {n}: {cause}"));
+        }
+        for l in &lines {
+            out.line(l);
+        }
+        for l in abort_record(&lines[start..], &cause) {
+            out.line(l);
+        }
+        from = n + 1;
+        if args.only.is_some() || from > last_case {
+            return Ok(());
+        }
+        if aborts >= 25 {
+            out.count("supervisor_gave_up_after_25_dead_workers");
+            return Ok(());
+        }
+    }
+}
+
+fn tail(s: &str, n: usize) -> String {
+    let mut cut = s.len().saturating_sub(n);
+    while !s.is_char_boundary(cut) {
+        cut += 1;
+    }
+    s[cut..].to_string()
+}
+
+fn describe_status(status: &std::process::ExitStatus) -> String {
+    #[cfg(unix)]
+    {
+        use std::os::unix::process::ExitStatusExt;
+        if let Some(sig) = status.signal() {
+            return format!("signal {sig}");
+        }
+    }
+    format!("{status}")
+}
+
+pub fn run(args: &Args) -> i32 {
+    if let Some(path) = args.extra.get("freshq") {
+        return run_freshq(path);
+    }
+    let mut out = Out::new();
+    if args.extra.contains_key("worker") {
+        // worker process of `supervise`: lines go to stdout as they are produced, statistics last
+        WORKER.store(true, std::sync::atomic::Ordering::Relaxed);
+        let from = args.extra.get("from").and_then(|v| v.parse().ok()).unwrap_or(0);
+        run_hir_cases(args, &mut out, from);
+        println!("#stats {}", serde_json::to_string(&out.stats).expect("stats"));
+        return 0;
+    }
+    let steps = args.extra_usize("steps", 25);
+    if args.extra_usize("inproc", 0) != 0 {
+        run_hir_cases(args, &mut out, 0);
+    } else if let Err(e) = supervise(args, &mut out) {
+        eprintln!("c13: {e}");
+        out.finish(&args.out);
+        return 3;
+    }
     // third layer: sessions with the real trust-lsp binary (case numbers from `--cases` + 2; the
     // first one is the fixed aliasing-rename regression case)
     let nlsp = args.extra_usize("lsp", 0) as u64;
